@@ -423,7 +423,7 @@ pub fn replay_case(case: &Value, mat: Mat) -> Option<Value> {
                     } else {
                         json!({"kind": "fixed_window", "pattern": world.pattern(), "count": 0})
                     };
-                    let enc_cfg = if si % 2 == 0 { json!({"pattern": "{m}"}) } else { json!({"kind": "faulty", "pattern": "{m}"}) };
+                    let enc_cfg = if mix(si + ops.len()) % 2 == 0 { json!({"pattern": "{m}"}) } else { json!({"kind": "faulty", "pattern": "{m}"}) };
                     let enc_cfg = if ops.iter().any(|o| o["res"] == "encfail") { json!({"kind": "faulty", "pattern": "{m}"}) } else { enc_cfg };
                     let mut doc = json!({"path": world.act().to_string_lossy(), "encoder": enc_cfg,
                                          "policy": {"trigger": trig_cfg, "roller": roller_cfg}});
